@@ -81,7 +81,7 @@ mod __verif_kani {
         else if rcl { assert!(bpw[0] == 0); }
     }
 
-    //@ kind=B props=C05 bound=3_consecutive_lanes fn=json::simd::x86::process_chunk_standard : the loop over lanes: for 3 bytes at lanes 0..3 (classification by contract) and any start state, the final state and the IB/BP words equal three reference steps (checks the `1 << i` lane indexing and the order of emission)
+    //@ kind=B props=C05 tier=thorough bound=3_consecutive_lanes fn=json::simd::x86::process_chunk_standard : the loop over lanes: for 3 bytes at lanes 0..3 (classification by contract) and any start state, the final state and the IB/BP words equal three reference steps (checks the `1 << i` lane indexing and the order of emission)
     #[kani::proof]
     #[kani::unwind(5)]
     pub fn c05_x86_standard_three_lanes() {
